@@ -9,11 +9,17 @@ from props import store_common
 
 PID = 'C08'
 META = {
-    'text': 'Theorems over a hand-written Gallina model of the shelve catalogue (names as code-point lists): construct is injective, every reachable catalogue is a gap-free bijection between names and ids that close/reopen preserves and that never reassigns an id, every primary key resolves through task/algorithm/state vector/value, next() exceeds every stored run id, and subset()/remove() address exactly the entries with the given names (the repaired subset; the pre-fix prefix match is refuted by a witness). Tied to the code by correspondence on generated operation histories over prefix families of names and on the pure util functions.',
+    'text': 'Theorems over a hand-written Gallina model of the shelve catalogue (names as code-point lists): construct is injective, every reachable catalogue is a gap-free bijection between names and ids that close/reopen preserves and that never reassigns an id, every primary key resolves through task/algorithm/state vector/value, next() exceeds every stored run id, and subset()/remove() address exactly the entries with the given names (the repaired subset; the pre-fix prefix match is refuted by a witness). Tied to the code by correspondence on generated operation histories over prefix families of names and on the pure util functions. util.construct, util.dissect, util.subset and Version.asstring are in addition regenerated from the python source on every run by a fail-closed translator (Gen/UtilGen.v) and PROVED equal, for all arguments, to the model functions the theorems speak about (C08_construct_is_source, C08_dissect_is_source, C08_subset_is_source): for these three functions the tie to the code is a proof obligation, not a sample.',
     'note': 'Trusted: Coq kernel; the hand model Catalogue.v/Store.v and the driver drive_store.py (sockets bypassed, as Test/test_07); the canonicalisers. reset()/trace() are modelled and compared, their exactness is checked by the oracle; names are assumed plain (no ":"). No axioms.',
-    'technique': 'Coq proof over a hand-written model + model/implementation correspondence on generated histories + property oracle on the implementation',
+    'technique': 'Coq proof over a hand-written model + source-generated definitions proved equal to the model functions (translator validated by a finite sweep) + model/implementation correspondence on generated histories + property oracle on the implementation',
 }
 
 
 def run(ctx):
+    # source tie by translation + proof (props/gen_tie.py): regenerate
+    # Gen/UtilGen.v before the proofs are checked, validate it afterwards
+    from props import gen_tie
+    g = None if ctx.replay else gen_tie.util_generate(ctx)
     store_common.run_check(ctx, PID, with_units=True)
+    if g is not None:
+        gen_tie.util_validate(ctx, g, PID)
